@@ -184,6 +184,63 @@ def is_delivery(ev):
     return None
 
 
+NONREENTRANT = ('Lock', 'Semaphore', 'BoundedSemaphore', 'allocate_lock')
+
+
+def lock_kind(program, text):
+    """Constructor name of the lock object `self.<x>` / `<Class>.<x>` / module
+    level `<x>` of the dispatcher family ('Lock', 'RLock', ...), else None."""
+    disp = dispatcher_class(program)
+    attr = text.split('.')[-1]
+    vals = []
+    for c in [disp] + program.subclasses(disp):
+        for n in ast.walk(c.node):
+            if isinstance(n, (ast.Assign, ast.AnnAssign)) and n.value is not None:
+                ts = n.targets if isinstance(n, ast.Assign) else [n.target]
+                for t in ts:
+                    if (isinstance(t, ast.Attribute) and t.attr == attr) or (
+                            isinstance(t, ast.Name) and t.id == attr):
+                        vals.append(n.value)
+    for n in disp.module.tree.body:
+        if isinstance(n, ast.Assign) and any(
+                isinstance(t, ast.Name) and t.id == attr for t in n.targets):
+            vals.append(n.value)
+    kinds = {(dotted(v.func) or '').split('.')[-1] for v in vals
+             if isinstance(v, ast.Call)}
+    return kinds.pop() if len(kinds) == 1 and len(vals) == 1 else None
+
+
+class HeldLocks:
+    """Tracks, along one trace, the non-reentrant locks of the dispatcher that
+    are held ('with' regions and acquire()/release() pairs)."""
+
+    def __init__(self, program):
+        self.program = program
+        self.stack = []
+
+    def feed(self, e):
+        if e.kind == 'with':
+            self.stack.append([s.text for s in (e.args or [])
+                               if lock_kind(self.program, s.text)
+                               in NONREENTRANT])
+        elif e.kind == 'endwith' and self.stack:
+            self.stack.pop()
+        elif e.kind == 'call' and isinstance(e.sym.node, ast.Call) \
+                and isinstance(e.sym.node.func, ast.Attribute):
+            fn = e.sym.node.func
+            if fn.attr == 'acquire' and lock_kind(
+                    self.program, norm(fn.value)) in NONREENTRANT:
+                self.stack.append([norm(fn.value)])
+            elif fn.attr == 'release':
+                for fr in reversed(self.stack):
+                    if norm(fn.value) in fr:
+                        fr.remove(norm(fn.value))
+                        break
+
+    def held(self):
+        return [t for fr in self.stack for t in fr]
+
+
 def dispatcher_class(program):
     return program.cls('EventDispatcher')
 
